@@ -201,6 +201,20 @@ static inline const char *vf_shape(const vf_doc *d)
     return s.s;
 }
 
+/* marks the interior of every name / string / bytes payload longer than 8 bytes (all but its first 2 and last 2 bytes) */
+static inline void vf_mask_long_payloads(const vf_doc *d, uint8_t *mask)
+{
+    memset(mask, 0, d->len);
+    for (int i = 0; i < d->nn; i++) {
+        const vf_node *x = &d->n[i];
+        if (x->name_off >= 0 && x->name_len > 8) memset(mask + x->name_off + 2, 1, (size_t) x->name_len - 4);
+        if ((x->kind == VK_STR || x->kind == VK_BYT) && x->pay_len > 8) memset(mask + x->pay_off + 2, 1, (size_t) x->pay_len - 4);
+    }
+}
+#define VF_LNAME128 "mmmmmmmmmmmmmmmmmmmmmmmmmmmmmmmmmmmmmmmmmmmmmmmmmmmmmmmmmmmmmmmmmmmmmmmmmmmmmmmmmmmmmmmmmmmmmmmmmmmmmmmmmmmmmmmmmmmmmmmmmmmmmmmmmmmmmmmm"
+/* a<b< 128-byte name: the third one needs a 2-byte length prefix */
+static const vf_name vf_names_abL[] = { { (const uint8_t *) "a", 1 }, { (const uint8_t *) "b", 1 }, { (const uint8_t *) VF_LNAME128, 128 } };
+
 /* standard name alphabet a<b<c */
 static const vf_name vf_names_abc[] = { { (const uint8_t *) "a", 1 }, { (const uint8_t *) "b", 1 }, { (const uint8_t *) "c", 1 } };
 
@@ -315,12 +329,16 @@ static inline const char *vf_tokenum_label(const vf_tokenum *e)
  * mutant and a description. */
 typedef void (*vf_mut_cb)(const uint8_t *m, size_t n, const char *what, void *u);
 static const uint8_t vf_mut_bytevals[] = { 0x00, 0x01, 0x10, 0x14, 0x18, 0x40, 0x41, 0x42, 0x43, 0x7f, 0x80, 0xff };
+/* optional: positions i with vf_mut_mask[i] != 0 get no byte-level mutation (used to thin out the interior of very
+ * long payloads, whose bytes are all alike to the code under test) */
+static const uint8_t *vf_mut_mask;
 static void vf_mutants(const uint8_t *b, size_t n, uint8_t *scratch, size_t cap, vf_mut_cb cb, void *u)
 {
     char what[80];
     uint8_t *m = scratch;
     if (n + 16 > cap) return;
     for (size_t i = 0; i < n; i++) {
+        if (vf_mut_mask && vf_mut_mask[i]) continue;
         for (size_t v = 0; v < sizeof vf_mut_bytevals + 2; v++) {
             uint8_t nv = v < sizeof vf_mut_bytevals ? vf_mut_bytevals[v] : (uint8_t) (b[i] + (v == sizeof vf_mut_bytevals ? 1 : -1));
             if (b[i] == nv) continue;
@@ -333,6 +351,7 @@ static void vf_mutants(const uint8_t *b, size_t n, uint8_t *scratch, size_t cap,
         }
     }
     for (size_t i = 0; i < n; i++) {
+        if (vf_mut_mask && vf_mut_mask[i]) continue;
         memcpy(m, b, i); snprintf(what, sizeof what, "truncated to %zu", i); cb(m, i, what, u);
         memcpy(m, b, i); memcpy(m + i, b + i + 1, n - i - 1); snprintf(what, sizeof what, "byte %zu deleted", i); cb(m, n - 1, what, u);
         memcpy(m, b, i + 1); memcpy(m + i + 1, b + i, n - i); snprintf(what, sizeof what, "byte %zu duplicated", i); cb(m, n + 1, what, u);
